@@ -135,6 +135,10 @@ func (propC07) Gen(seed uint64, tier string) *Case {
 		for i := pr.Range(1, 2); i > 0; i-- {
 			prec.Ops = append(prec.Ops, Op{K: "add", Node: pg.decl()})
 		}
+		if pr.Chance(0.5) {
+			// ... whose first render meets a failing writer (whatever that leaves behind in the process)
+			prec.Ops = append(prec.Ops, Op{K: "render", W: &WriterPlan{FailAt: 1, Kind: "err"}})
+		}
 		prec.Ops = append(prec.Ops, Op{K: "render"})
 		c.Pollute = []*Recipe{prec}
 	}
